@@ -4,6 +4,7 @@
 package e2e
 
 import (
+	"io"
 	"fmt"
 	"net"
 	"os"
@@ -489,6 +490,7 @@ func runScenario(sc Scenario) *Outcome {
 		var wg sync.WaitGroup
 		var cmu sync.Mutex
 		sentLines, sentBytes, openLines := 0, 0, 0
+		gracefulConns, eofConns := 0, 0 // connections closed gracefully by the client / of those, the agent closed its side after reading EOF
 		var openConns []net.Conn
 		stopClients := make(chan struct{})
 		for ci, cs := range g.Conns {
@@ -601,8 +603,29 @@ func runScenario(sc Scenario) *Outcome {
 				}
 				cmu.Unlock()
 				if cs.Close == "graceful" && ok {
+					// half-close and wait for the agent to close its side: it does so after it has read the end of the stream,
+					// i.e. after it has consumed every byte of this connection
+					sawEOF := false
+					if tc, isTCP := conn.(*net.TCPConn); isTCP {
+						_ = tc.CloseWrite()
+						_ = conn.SetReadDeadline(time.Now().Add(5 * time.Second))
+						var scratch [64]byte
+						for {
+							_, rerr := conn.Read(scratch[:])
+							if rerr == io.EOF {
+								sawEOF = true
+							}
+							if rerr != nil {
+								break
+							}
+						}
+					}
 					conn.Close()
 					cmu.Lock()
+					gracefulConns++
+					if sawEOF {
+						eofConns++
+					}
 					sentLines += nLines
 					sentBytes += nBytes
 					for _, e := range exps {
@@ -633,6 +656,10 @@ func runScenario(sc Scenario) *Outcome {
 		// wait until the agent has read everything that was sent on gracefully closed connections
 		drained := false
 		deadline := time.Now().Add(4 * time.Second)
+		allEOF := eofConns == gracefulConns // the agent has consumed every byte of every gracefully closed connection
+		if allEOF {
+			deadline = time.Now().Add(500 * time.Millisecond) // the counters of a connection are published when its sink is closed, an instant later
+		}
 		for time.Now().Before(deadline) {
 			m := ag.gather()
 			if int(m.Sum("slogagent_input_passed_records_total")+m.Sum("slogagent_input_dropped_records_total")) >= sentLines+openLines {
@@ -640,6 +667,11 @@ func runScenario(sc Scenario) *Outcome {
 				break
 			}
 			time.Sleep(3 * time.Millisecond)
+		}
+		if allEOF {
+			// whatever the counters say: everything on those connections was handed to the parser (the counters are final
+			// after the stop, which is when the oracles read them)
+			drained = true
 		}
 		if g.Reload != "" && ag.reload != nil {
 			_ = os.WriteFile(confPath, []byte(configText(sc, filepath.Join(root, "buf"), addrs, g.Reload)), 0o644)
